@@ -30,6 +30,23 @@ pub struct Meta {
     pub assumptions: Vec<String>,
 }
 
+/// The history profile of a property whose check is a model-based history check.
+pub fn hist_check(id: &str, thorough: bool) -> Option<hist::HistCheck<'static>> {
+    Some(match id {
+        "C03" => c03::hc(thorough),
+        "C04" => c04::hc(thorough),
+        "C05" => c05::hc(thorough),
+        "C06" => c06::hc(thorough),
+        "C09" => c09::hc(thorough),
+        "C10" => c10::hc(thorough),
+        "C11" => c11::hc(thorough),
+        "C13" => c13::hc(thorough),
+        "C17" => c17::hc(thorough),
+        "C18" => c18::hc(thorough),
+        _ => return None,
+    })
+}
+
 pub fn run(ctx: &Ctx, col: &Collector) -> Meta {
     match ctx.id.as_str() {
         "C15" => c15::run(ctx, col),
